@@ -2,6 +2,7 @@
 //! transliterations of the reference semantics (G1, first-line ending), on raw symbolic bytes.
 //! Kernel stubs replace std search kernels that wreck bit-blasting; each stub is checked against
 //! the std function by its own harness (`stub_*_equiv`).
+#![feature(pattern)]
 #![recursion_limit = "512"]
 #![allow(dead_code)]
 #![allow(unused_imports)]
@@ -11,9 +12,18 @@ extern crate alloc;
 
 #[cfg(kani)]
 mod proofs {
+    use core::str::pattern::{Pattern, Searcher, Utf8Pattern};
     use txtpp::verif::*;
 
-    const N: usize = 8;
+    /// contract-equivalent replacement of `str::find` (std's TwoWaySearcher wrecks bit-blasting):
+    /// naive scan for string needles, the std searcher for everything else (char predicates are a simple loop).
+    /// Equivalence with std on the same bound is the harness `stub_find_equiv`.
+    pub fn naive_find<P: Pattern>(s: &str, p: P) -> Option<usize> {
+        if let Some(Utf8Pattern::StringPattern(needle)) = p.as_utf8_pattern() {
+            return find_bytes(s.as_bytes(), needle.as_bytes());
+        }
+        p.into_searcher(s).next_match().map(|(i, _)| i)
+    }
 
     /// first index of `needle` in `hay` (bytes), naive
     fn find_bytes(hay: &[u8], needle: &[u8]) -> Option<usize> {
@@ -112,6 +122,15 @@ mod proofs {
 
     #[kani::proof]
     #[kani::unwind(10)]
+    fn stub_find_equiv() {
+        let (buf, len) = ascii_line::<7>();
+        let s = core::str::from_utf8(&buf[..len]).unwrap();
+        assert!(s.find("TXTPP#") == naive_find(s, "TXTPP#"));
+    }
+
+    #[kani::proof]
+    #[kani::unwind(10)]
+    #[kani::stub(str::find, naive_find)]
     fn detect_from_matches_g1_6() {
         let (buf, len) = ascii_line::<6>();
         let line = core::str::from_utf8(&buf[..len]).unwrap();
